@@ -313,6 +313,14 @@ def b_list(ex, st, args, kwargs, node):
     if isinstance(ty, (Ty.TList, Ty.TTuple)) and not isinstance(v.ty, Ty.TOpt):
         et = ty.t if isinstance(ty, Ty.TList) else Ty.ANY
         return [(st, new_list_from_seq(st, st.L[va(v.term)], et))], []
+    if isinstance(ty, Ty.TSet) and not isinstance(v.ty, Ty.TOpt):
+        # list(set): some sequence with exactly the set's members (order unspecified)
+        a = va(v.term)
+        seq = fresh('fromset', SeqVal)
+        x = fresh('lx', Val)
+        st.assume(z3.ForAll([x], st.DK[a][x] == z3.Contains(seq, z3.Unit(x))))
+        st.assume(z3.Length(seq) == st.DSZ[a])
+        return [(st, new_list_from_seq(st, seq, ty.t))], []
     raise Unsupported('list() of %r' % (v.ty,))
 
 
@@ -320,7 +328,35 @@ def b_list(ex, st, args, kwargs, node):
 def b_dict(ex, st, args, kwargs, node):
     if not args and not kwargs:
         return [(st, new_dict(st, []))], []
+    if len(args) == 1 and not kwargs:
+        from .execexpr import dict_view
+        v = dict_view(args[0])
+        if isinstance(v.ty, Ty.TDict):
+            return m_copy(ex, st, v, [], {}, node)
     raise Unsupported('dict() with arguments')
+
+
+@builtin('builtins:set')
+def b_set(ex, st, args, kwargs, node):
+    """set(list): membership-only model (keys present == elements of the sequence)"""
+    a = alloc(st, K_SET)
+    if not args:
+        st.DK = z3.Store(st.DK, a, z3.K(Val, FALSE))
+        st.DSZ = z3.Store(st.DSZ, a, z3.IntVal(0))
+        return [(st, SV(VRef(a), Ty.TSet(Ty.ANY)))], []
+    v = args[0]
+    ty = Ty.strip_opt(v.ty)
+    if not isinstance(ty, (Ty.TList, Ty.TTuple)) or isinstance(v.ty, Ty.TOpt):
+        raise Unsupported('set() of %r' % (v.ty,))
+    seq = st.L[va(v.term)]
+    ks = fresh('setks', KeySet)
+    x = fresh('sx', Val)
+    st.assume(z3.ForAll([x], ks[x] == z3.Contains(seq, z3.Unit(x))))
+    sz = fresh('setsz', IntS)
+    st.assume(And(sz >= 0, sz <= z3.Length(seq), (sz == 0) == (z3.Length(seq) == 0)))
+    st.DK = z3.Store(st.DK, a, ks)
+    st.DSZ = z3.Store(st.DSZ, a, sz)
+    return [(st, SV(VRef(a), Ty.TSet(ty.t if isinstance(ty, Ty.TList) else Ty.ANY)))], []
 
 
 @builtin('builtins:type')
